@@ -231,6 +231,40 @@ def check_diagonal(mm, rep):
     rep.floor("R16.1", n, 3, "diagonal arms answering with one operand")
 
 
+def check_idempotence(mm, rep):
+    """merge(x, x) = x: either merge returns its operand as soon as the two are equal (before the arm table), or every
+    constructor's diagonal arm returns the operand for equal operands. Without it, a type met twice (a literal `bytes` next to a
+    `bytes` derived during the fold) conflicts with itself for some orders only."""
+    root = mm.fn["hir"]["value"]
+    fast = False
+    for n, ps in F.exprs(root, "If"):
+        if "else" in n or not T.diverges(n["then"]):
+            continue
+        c = n["cond"]
+        while c.get("k") in ("DropTemps", "Use"):
+            c = c["e"]
+        if c.get("k") == "Binary" and c["op"] == "Eq" and {F.local_of(F.strip(c["l"])), F.local_of(F.strip(c["r"]))} == {mm.left, mm.right}:
+            # before the arm table
+            if T._span_key(n["span"])[2] <= T._span_key(mm.match["span"])[1]:
+                rets = [x for x, _ in F.walk(n["then"]) if x.get("k") == "Call" and F.strip_generics(F.callee_def(x) or "").endswith("Merge::expression") and x["args"] and F.local_of(F.strip(x["args"][0])) in (mm.left, mm.right)]
+                fast = bool(rets)
+    if fast:
+        rep.oblige(True, "R16.2", "idempotent:fast-path", F.loc(mm.fn["span"]), "", sample={"rule": "R16.2", "idempotence": "equal operands are returned before the arm table"})
+        return
+    bad = []
+    for V in mm.variants:
+        if V in ("Equal",):
+            continue
+        sel = [a for a in mm.select(V, V) if not a.delegate]
+        ok = False
+        for arm in sel[:1]:
+            res = result_exprs(arm.node["body"])
+            ok = bool(res) and any(kind in ("expression", "equalities", "new", "judgements") and not any(F.strip_generics(F.callee_def(c) or "").endswith(("TypeExpression::conflict", "TypeExpression::conflict_with")) for c, _ in F.calls(node)) for kind, node, ps in res)
+        if not ok:
+            bad.append(V)
+    rep.oblige(not bad, "R16.2", "idempotent", F.loc(mm.fn["span"]), f"merge has no early return for equal operands and the diagonal arm(s) for {bad} can only conflict: merge(x, x) is not x, so a type that is met twice conflicts with itself depending on the order of the fold")
+
+
 def check_absorption(mm, rep):
     """R16.3"""
     L, R = mm.left, mm.right
@@ -361,6 +395,7 @@ def check(fx, rep, tier):
     rep.floor("R16.1", len(mm.arms), 15, "arms of merge")
     check_mirrors(mm, rep)
     check_diagonal(mm, rep)
+    check_idempotence(mm, rep)
     usages, table = usage_table(fx, rep, "R16.2")
     if table is not None:
         check_usage_laws(fx, rep, "R16.2", usages, table, want_upper_bound=False)
